@@ -48,7 +48,10 @@ def freeze(v):
         return tuple(sorted(freeze(x) for x in v))
     if isinstance(v, Contract):
         return ('contract', freeze(v.final_bid), v.x, v.xx, freeze(v.vul), freeze(v.declarer))
-    return v
+    # an object the explorer does not understand (an iterator, a lock, a cache object a refactoring introduced): its identity must not
+    # make every state distinct; it is represented by its type only (soundness of merging is then left to the per-transition oracle,
+    # the differential merge check and the unmerged cross-check)
+    return ('opaque', type(v).__name__)
 
 
 def fastcopy(v):
@@ -206,7 +209,7 @@ def apply_call(o: BiddingPhase, idx: int):
         return e
 
 
-def explore(dealer: str, vul: str, cell: Optional[Tuple[str, str]], c: Counter, max_states: int = 10 ** 7,
+def explore(dealer: str, vul: str, cell: Optional[Tuple[str, str]], c: Counter, max_states: int = 120_000,
             alphabet: Optional[List[int]] = None, merge: bool = True, max_depth: int = 10 ** 9):
     """BFS over canonical states; every call of `alphabet` (default all 38) offered in every state."""
     alphabet = list(range(38)) if alphabet is None else alphabet
